@@ -33,30 +33,44 @@ theorem good_execute {c : Cfg} (httl : 0 < c.ttl) {b : Bool} {s : St} {g k : Nat
     (hnow : t1.now = s.t.now) (hmain : t1.m kMain = s.t.m kMain) (h1 : 1 ≤ hh)
     (hm : t1.m kAux = some ⟨.int hh, some d⟩)
     (hfacts : ∀ st id, cached2 s.t = some (st, id) → st + c.ttl ≤ d ∧ hh = ctr s.t + 1) (o : Outcome) :
-    Good c b (execute c s t1 o).1 (runAfter b g (.call (execute c s t1 o).2))
-      (callsAfter k (.call (execute c s t1 o).2)) := by
+    Good c b (execute c s t1 o).1 (runAfter b g (.call o) (.call (execute c s t1 o).2))
+      (callsAfter k (.call o) (.call (execute c s t1 o).2)) := by
   have hfl : ∀ g' : Nat, b = false → s.inflight ≠ [] → 0 < c.upd ∧ c.upd ≤ c.hits ∧ g' ≤ 1 :=
     fun g' hb hne => absurd (hseq hb) hne
-  have hbad : ∀ o', (o' = .listed ∨ o' = .unlisted) →
-      Good c b { s with t := t1, nexec := s.nexec + 1 } (runAfter b g (.call ⟨.raised o', true, false⟩))
-        (callsAfter k (.call ⟨.raised o', true, false⟩)) := by
-    intro o' _
-    refine ⟨?_, hfl _⟩
-    simp only [runAfter, callsAfter, isStored, storedIn]
-    simp
-    exact tgood_bumped h.tg hnow hmain h1 hm hfacts (by omega) (fun _ _ _ => Or.inl (by omega))
+  have hbump : TGood c t1 0 (k + 1) :=
+    tgood_bumped h.tg hnow hmain h1 hm hfacts (by omega) (fun _ _ _ => Or.inl (by omega))
   unfold execute
-  cases o
-  · refine ⟨?_, hfl _⟩
-    simp only [runAfter, callsAfter, isStored, storedIn]
+  cases o with
+  | ok =>
+    refine ⟨?_, hfl _⟩
+    simp only [runAfter, callsAfter, isStored, reachedSet, Outcome.reachesSet]
     simp
     exact tgood_save httl t1 _ (by omega) (Or.inl rfl)
-  · exact hbad _ (Or.inl rfl)
-  · exact hbad _ (Or.inr rfl)
+  | listed =>
+    refine ⟨?_, hfl _⟩
+    simp only [runAfter, callsAfter, isStored, reachedSet, Outcome.reachesSet]
+    simpa using hbump
+  | unlisted =>
+    refine ⟨?_, hfl _⟩
+    simp only [runAfter, callsAfter, isStored, reachedSet, Outcome.reachesSet]
+    simpa using hbump
+  | rejected =>
+    refine ⟨?_, hfl _⟩
+    simp only [runAfter, callsAfter, isStored, reachedSet, Outcome.reachesSet]
+    simpa using hbump
+  | storeFails stg l =>
+    refine ⟨?_, hfl _⟩
+    cases stg
+    · simp only [runAfter, callsAfter, isStored, reachedSet, Outcome.reachesSet, afterStoreFailure]
+      simpa using hbump
+    · simp only [runAfter, callsAfter, isStored, reachedSet, Outcome.reachesSet, afterStoreFailure]
+      simp
+      exact tgood_reset hbump (by omega) (Or.inl rfl)
 
 theorem good_call {c : Cfg} (httl : 0 < c.ttl) {b : Bool} {s : St} {g k : Nat} (h : Good c b s g k)
     (hseq : b = false → s.inflight = []) (o : Outcome) :
-    Good c b (call c s o).1 (runAfter b g (.call (call c s o).2)) (callsAfter k (.call (call c s o).2)) := by
+    Good c b (call c s o).1 (runAfter b g (.call o) (.call (call c s o).2))
+      (callsAfter k (.call o) (.call (call c s o).2)) := by
   obtain ⟨t1, hh, d, hincr, hnow, hmain, h1, hm, hfacts⟩ := incr_facts httl h.tg
   have hfl : ∀ g' : Nat, b = false → s.inflight ≠ [] → 0 < c.upd ∧ c.upd ≤ c.hits ∧ g' ≤ 1 :=
     fun g' hb hne => absurd (hseq hb) hne
@@ -80,23 +94,40 @@ theorem good_call {c : Cfg} (httl : 0 < c.ttl) {b : Bool} {s : St} {g k : Nat} (
         cases hbg : c.bg
         · -- foreground refresh
           simp only [Bool.false_eq_true, if_false]
-          cases o
-          · refine ⟨?_, hfl _⟩
-            simp only [runAfter, callsAfter, isStored, storedIn]
+          have hbump0 : TGood c t1 0 (k + 1) :=
+            tgood_bumped h.tg hnow hmain h1 hm hfacts (by omega) (fun _ _ _ => Or.inl (by omega))
+          have hbump1 : TGood c t1 1 (k + 1) :=
+            tgood_bumped h.tg hnow hmain h1 hm hfacts (by omega) (fun _ _ _ => Or.inl (by omega))
+          cases o with
+          | ok =>
+            refine ⟨?_, hfl _⟩
+            simp only [runAfter, callsAfter, isStored, reachedSet, Outcome.reachesSet]
             simp
             exact tgood_save httl t1 _ (by omega) (Or.inr ⟨hu1, hu2, by omega, by omega⟩)
-          · refine ⟨?_, hfl _⟩
-            simp only [runAfter, callsAfter, isStored, storedIn]
-            simp
-            exact tgood_bumped h.tg hnow hmain h1 hm hfacts (by omega) (fun _ _ _ => Or.inl (by omega))
-          · refine ⟨?_, hfl _⟩
-            simp only [runAfter, callsAfter, isStored, storedIn]
-            simp
-            exact tgood_bumped h.tg hnow hmain h1 hm hfacts (by omega) (fun _ _ _ => Or.inl (by omega))
+          | listed =>
+            refine ⟨?_, hfl _⟩
+            simp only [runAfter, callsAfter, isStored, reachedSet, Outcome.reachesSet]
+            simpa using hbump0
+          | unlisted =>
+            refine ⟨?_, hfl _⟩
+            simp only [runAfter, callsAfter, isStored, reachedSet, Outcome.reachesSet]
+            simpa using hbump0
+          | rejected =>
+            refine ⟨?_, hfl _⟩
+            simp only [runAfter, callsAfter, isStored, reachedSet, Outcome.reachesSet]
+            simpa using hbump1
+          | storeFails stg l =>
+            refine ⟨?_, hfl _⟩
+            cases stg
+            · simp only [runAfter, callsAfter, isStored, reachedSet, Outcome.reachesSet, afterStoreFailure]
+              simpa using hbump0
+            · simp only [runAfter, callsAfter, isStored, reachedSet, Outcome.reachesSet, afterStoreFailure]
+              simp
+              exact tgood_reset hbump0 (by omega) (Or.inl rfl)
         · -- background refresh: the task is created, the stored result is the answer
           simp only [if_true]
           refine ⟨?_, ?_⟩
-          · simp only [runAfter, callsAfter, isStored, storedIn]
+          · simp only [runAfter, callsAfter, isStored, reachedSet]
             simp
             exact tgood_bumped h.tg hnow hmain h1 hm hfacts (by omega) (fun _ _ _ => Or.inl (by omega))
           · intro _ _
@@ -105,7 +136,7 @@ theorem good_call {c : Cfg} (httl : 0 < c.ttl) {b : Bool} {s : St} {g k : Nat} (
             exact ⟨hu1, hu2⟩
       · rw [if_neg hupd]
         refine ⟨?_, hfl _⟩
-        simp only [runAfter, callsAfter, isStored, storedIn]
+        simp only [runAfter, callsAfter, isStored, reachedSet]
         simp
         have hne : c.upd = 0 ∨ hh ≠ (c.upd : Int) := by
           by_cases h0 : c.upd = 0
@@ -121,32 +152,46 @@ theorem good_call {c : Cfg} (httl : 0 < c.ttl) {b : Bool} {s : St} {g k : Nat} (
 
 theorem good_done {c : Cfg} (httl : 0 < c.ttl) {b : Bool} {s : St} {g k : Nat} (h : Good c b s g k)
     (i : Nat) (o : Outcome) :
-    Good c b (done c s i o).1 (runAfter b g (.done (done c s i o).2)) (callsAfter k (.done (done c s i o).2)) := by
+    Good c b (done c s i o).1 (runAfter b g (.done i o) (.done (done c s i o).2))
+      (callsAfter k (.done i o) (.done (done c s i o).2)) := by
   unfold done
   split
-  · exact h
+  · simpa [runAfter, callsAfter, reachedSet] using h
   · rename_i id hi
     have hne : s.inflight ≠ [] := by intro h0; simp [h0] at hi
-    cases o
-    · simp only [runAfter, callsAfter]
+    have hsame : Good c b { s with inflight := s.inflight.eraseIdx i } g k := ⟨h.tg, fun hb _ => h.fl hb hne⟩
+    -- the refresh got as far as the set: the counter is gone, a new result is there or the old one stayed
+    have hreset : ∀ t', (∀ g', g' ≤ c.hits → (g' = 0 ∨ AltB c g' 0) → TGood c t' g' 0) →
+        Good c b { s with t := t', inflight := s.inflight.eraseIdx i } (if b then 0 else g) 0 := by
+      intro t' ht'
       cases b
       · -- start-only counting: the serve count is kept, it is at most 1 while a refresh is in flight
         obtain ⟨hu1, hu2, hg⟩ := h.fl rfl hne
         refine ⟨?_, fun _ _ => ⟨hu1, hu2, hg⟩⟩
         simp only [Bool.false_eq_true, if_false]
-        exact tgood_save httl s.t id h.tg.bound (Or.inr ⟨hu1, hu2, by omega, by omega⟩)
+        exact ht' g h.tg.bound (Or.inr ⟨hu1, hu2, by omega, by omega⟩)
       · refine ⟨?_, fun hb => by simp at hb⟩
         simp only [if_true]
-        exact tgood_save httl s.t id (by omega) (Or.inl rfl)
-    · exact ⟨h.tg, fun hb _ => h.fl hb hne⟩
-    · exact ⟨h.tg, fun hb _ => h.fl hb hne⟩
+        exact ht' 0 (by omega) (Or.inl rfl)
+    cases o with
+    | ok =>
+      simp only [runAfter, callsAfter, reachedSet, Outcome.reachesSet]
+      simpa using hreset _ (fun g' hb hr => tgood_save httl s.t id hb hr)
+    | listed => simpa [runAfter, callsAfter, reachedSet, Outcome.reachesSet] using hsame
+    | unlisted => simpa [runAfter, callsAfter, reachedSet, Outcome.reachesSet] using hsame
+    | rejected => simpa [runAfter, callsAfter, reachedSet, Outcome.reachesSet] using hsame
+    | storeFails stg l =>
+      cases stg
+      · simpa [runAfter, callsAfter, reachedSet, Outcome.reachesSet, afterStoreFailure] using hsame
+      · simp only [runAfter, callsAfter, reachedSet, Outcome.reachesSet, afterStoreFailure]
+        simpa using hreset _ (fun g' hb hr => tgood_reset h.tg hb hr)
 
 /-- the hypothesis of the sequential reading: no call is made while a refresh is in flight -/
 def SeqOK (s : St) (op : DOp) : Prop := ∀ o, op = .call o → s.inflight = []
 
 theorem good_step {c : Cfg} (httl : 0 < c.ttl) {b : Bool} {s : St} {g k : Nat} (h : Good c b s g k) (op : DOp)
     (hseq : b = false → SeqOK s op) :
-    Good c b (step c s op).1 (runAfter b g (step c s op).2) (callsAfter k (step c s op).2) := by
+    Good c b (step c s op).1 (runAfter b g op (step c s op).2) (callsAfter k op (step c s op).2) := by
   cases op with
   | call o => exact good_call httl h (fun hb => hseq hb o rfl) o
   | adv dt => exact ⟨tgood_advance h.tg dt, h.fl⟩
@@ -158,7 +203,7 @@ namespace CashewsVerif.Decor.Hit
 open CashewsVerif CashewsVerif.Decor
 
 def foldCounts (b : Bool) (gk : Nat × Nat) (tr : List (St × DOp × Ans)) : Nat × Nat :=
-  tr.foldl (fun gk e => (runAfter b gk.1 e.2.2, callsAfter gk.2 e.2.2)) gk
+  tr.foldl (fun gk e => (runAfter b gk.1 e.2.1 e.2.2, callsAfter gk.2 e.2.1 e.2.2)) gk
 
 theorem counts_eq (b : Bool) (tr : List (St × DOp × Ans)) : counts b tr = foldCounts b (0, 0) tr := rfl
 
@@ -183,16 +228,16 @@ theorem call_started {c : Cfg} (httl : 0 < c.ttl) {b : Bool} {s : St} {g k : Nat
     {st id : Nat} (hc : cached2 s.t = some (st, id)) :
     ((call c s o).2.started = true ↔ (k + 1 = c.upd ∧ c.upd ≠ 0 ∧ c.upd ≤ c.hits)) ∧
     (k + 1 ≤ c.hits → (call c s o).2.res = .stored st id ∨
-        (c.bg = false ∧ o ≠ .ok ∧ k + 1 = c.upd ∧ (call c s o).2.res = .raised o)) ∧
+        (c.bg = false ∧ o.raises = true ∧ k + 1 = c.upd ∧ (call c s o).2.res = o.result s.t.now s.nexec)) ∧
     (c.hits < k + 1 → (call c s o).2.exec = true ∧ (call c s o).2.started = false ∧
-        ((call c s o).2.res = .fresh s.t.now s.nexec ∨ (call c s o).2.res = .raised o)) := by
+        (call c s o).2.res = o.result s.t.now s.nexec) := by
   obtain ⟨t1, hh, d, hincr, hnow, hmain, h1, hm, hfacts⟩ := incr_facts httl h.tg
   obtain ⟨hctr, _⟩ := h.tg.cnt st id hc
   obtain ⟨_, hhh⟩ := hfacts st id hc
   have hk : hh = (k : Int) + 1 := by omega
   have hex : (execute c s t1 o).2.exec = true ∧ (execute c s t1 o).2.started = false ∧
-      ((execute c s t1 o).2.res = .fresh s.t.now s.nexec ∨ (execute c s t1 o).2.res = .raised o) := by
-    unfold execute; cases o <;> simp
+      (execute c s t1 o).2.res = o.result s.t.now s.nexec := by
+    unfold execute; cases o <;> simp [Outcome.result]
   unfold call
   rw [hincr]
   simp only [hc]
@@ -204,8 +249,10 @@ theorem call_started {c : Cfg} (httl : 0 < c.ttl) {b : Bool} {s : St} {g k : Nat
       · simp only [Bool.false_eq_true, if_false]
         cases o
         · refine ⟨by simp; omega, fun _ => Or.inl (by simp), fun hlt => by omega⟩
-        · refine ⟨by simp; omega, fun _ => Or.inr ⟨by simp, by simp, by omega, by simp⟩, fun hlt => by omega⟩
-        · refine ⟨by simp; omega, fun _ => Or.inr ⟨by simp, by simp, by omega, by simp⟩, fun hlt => by omega⟩
+        · refine ⟨by simp; omega, fun _ => Or.inr ⟨by simp, by simp [Outcome.raises], by omega, by simp [Outcome.result]⟩, fun hlt => by omega⟩
+        · refine ⟨by simp; omega, fun _ => Or.inr ⟨by simp, by simp [Outcome.raises], by omega, by simp [Outcome.result]⟩, fun hlt => by omega⟩
+        · refine ⟨by simp; omega, fun _ => Or.inl (by simp), fun hlt => by omega⟩
+        · refine ⟨by simp; omega, fun _ => Or.inr ⟨by simp, by simp [Outcome.raises], by omega, by simp [Outcome.result]⟩, fun hlt => by omega⟩
       · simp only [if_true]
         refine ⟨by simp; omega, fun _ => Or.inl (by simp), fun hlt => by omega⟩
     · rw [if_neg hupd]
@@ -221,5 +268,103 @@ theorem call_started {c : Cfg} (httl : 0 < c.ttl) {b : Bool} {s : St} {g k : Nat
     intro h2 h3
     have : ¬ hh ≤ (c.hits : Int) := fun h' => hserve ⟨by omega, h'⟩
     omega
+
+end CashewsVerif.Decor.Hit
+
+/-! ### the store step: what is stored changes only with outcome `ok`; who is answered with what -/
+namespace CashewsVerif.Decor.Hit
+open CashewsVerif CashewsVerif.Decor
+
+theorem incr_main (t : TtlMap) (by_ : Int) (ttl : Option Nat) :
+    (t.incr kAux by_ ttl).1.m kMain = t.m kMain ∧ (t.incr kAux by_ ttl).1.now = t.now := by
+  unfold TtlMap.incr
+  simp only []
+  split
+  · exact ⟨rfl, rfl⟩
+  · exact ⟨write_m_ne _ _ _ _ (by simp [kAux, kMain]), rfl⟩
+
+theorem afterStoreFailure_main (t : TtlMap) (st : Stage) :
+    (afterStoreFailure t st).m kMain = t.m kMain ∧ (afterStoreFailure t st).now = t.now := by
+  cases st <;> simp [afterStoreFailure, remove_m]
+
+theorem execute_main (c : Cfg) (s : St) (t1 : TtlMap) (o : Outcome) (ho : o ≠ .ok) :
+    (execute c s t1 o).1.t.m kMain = t1.m kMain ∧ (execute c s t1 o).1.t.now = t1.now := by
+  unfold execute
+  cases o <;> first | exact absurd rfl ho | exact ⟨rfl, rfl⟩ | exact afterStoreFailure_main _ _
+
+theorem execute_answer (c : Cfg) (s : St) (t1 : TtlMap) (o : Outcome) :
+    (execute c s t1 o).2 = ⟨o.result s.t.now s.nexec, true, false⟩ := by
+  unfold execute
+  cases o <;> rfl
+
+/-- only an execution with outcome `ok` changes what is stored under the result's key -/
+theorem call_main (c : Cfg) (s : St) (o : Outcome) (ho : o ≠ .ok) :
+    (call c s o).1.t.m kMain = s.t.m kMain ∧ (call c s o).1.t.now = s.t.now := by
+  have hm := incr_main s.t 1 (some c.ttl)
+  have hx : ∀ t1, (t1.m kMain = s.t.m kMain ∧ t1.now = s.t.now) →
+      (execute c s t1 o).1.t.m kMain = s.t.m kMain ∧ (execute c s t1 o).1.t.now = s.t.now := by
+    intro t1 h1
+    have := execute_main c s t1 o ho
+    exact ⟨this.1.trans h1.1, this.2.trans h1.2⟩
+  unfold call
+  rcases hi : s.t.incr kAux 1 (some c.ttl) with ⟨t1, out⟩
+  rw [hi] at hm
+  simp only [] at hm
+  cases out with
+  | int h =>
+    simp only []
+    split
+    · split
+      · split
+        · split
+          · exact hm
+          · cases o <;> first
+              | exact absurd rfl ho
+              | exact hm
+              | (have := afterStoreFailure_main t1 ‹Stage›; exact ⟨this.1.trans hm.1, this.2.trans hm.2⟩)
+        · exact hm
+      · exact hx t1 hm
+    · exact hx t1 hm
+  | _ => exact hm
+
+theorem done_main (c : Cfg) (s : St) (i : Nat) (o : Outcome) (ho : o ≠ .ok) :
+    (done c s i o).1.t.m kMain = s.t.m kMain ∧ (done c s i o).1.t.now = s.t.now := by
+  unfold done
+  split
+  · exact ⟨rfl, rfl⟩
+  · cases o <;> first | exact absurd rfl ho | exact ⟨rfl, rfl⟩ | exact afterStoreFailure_main _ _
+
+/-- whenever the function runs inside a call, the caller is handed what that execution produced — its result, its
+exception, the exception of its store step — or, when it was a foreground refresh that raised nothing, the stored
+result the refresh was started for -/
+theorem call_answer (c : Cfg) (s : St) (o : Outcome) (hx : (call c s o).2.exec = true) :
+    ((call c s o).2.started = false ∧ (call c s o).2.res = o.result s.t.now s.nexec) ∨
+    ((call c s o).2.started = true ∧
+      ((o.raises = true ∧ (call c s o).2.res = o.result s.t.now s.nexec) ∨
+       (o.raises = false ∧ ∃ st id, cached2 s.t = some (st, id) ∧ (call c s o).2.res = .stored st id))) := by
+  revert hx
+  unfold call
+  rcases hi : s.t.incr kAux 1 (some c.ttl) with ⟨t1, out⟩
+  cases out with
+  | int h =>
+    simp only []
+    cases hc : cached2 s.t with
+    | none => simp only []; intro _; left; rw [execute_answer]; exact ⟨rfl, rfl⟩
+    | some p =>
+      obtain ⟨st, id⟩ := p
+      simp only []
+      by_cases hs : h ≠ 0 ∧ h ≤ (c.hits : Int)
+      · rw [if_pos hs]
+        by_cases hu : c.upd ≠ 0 ∧ h = (c.upd : Int)
+        · rw [if_pos hu]
+          cases hb : c.bg
+          · simp only [Bool.false_eq_true, if_false]
+            intro _
+            right
+            cases o <;> simp [Outcome.raises, Outcome.result]
+          · simp
+        · rw [if_neg hu]; simp
+      · rw [if_neg hs]; intro _; left; rw [execute_answer]; exact ⟨rfl, rfl⟩
+  | _ => simp
 
 end CashewsVerif.Decor.Hit
